@@ -227,6 +227,14 @@ def seq_view(eng, v):
         return v
     if isinstance(v, GeneratorCall):
         return eager_generator(eng, v)
+    if isinstance(v, IterObj):
+        # iterating (or unpacking, or list()) an iterator object: the elements from its current position on
+        pos, view = v.pos, v.view
+        conc = None
+        sp = z3.simplify(pos)
+        if view.concrete is not None and z3.is_int_value(sp):
+            conc = list(view.concrete)[sp.as_long():]
+        return SeqView(z3.simplify(view.length - pos), lambda i, view=view, pos=pos: view.nth(pos + i), concrete=conc)
     if isinstance(v, TupleVal):
         items = v.items
         return SeqView(z3.IntVal(len(items)), lambda i, items=items: _concrete_nth(eng, items, i), concrete=list(items))
@@ -1086,6 +1094,18 @@ def delitem(eng, base, idx, node, frame):
     base = eng.to_tv(base)
     fr = run.fresh_of(base.t) if base.sort == "val" else None
     if fr is None:
+        if base.sort == "val" and run.container_allowed(base.t) and run._entails(eng.isinstance_expr(base.t, [eng.ct.ext["dict"]])):
+            # a world dict listed in `modifies`: same mutable state as for item stores
+            from .symexec import Fresh
+            ws = run.world_dict_state(base.t, create=True)
+            f = Fresh(-1, "dict", None, None)
+            f.length, f.arr, f.has, f.get = ws["len"], ws["arr"], ws["has"], ws["get"]
+            kv = key_norm(eng, idx)
+            eng.implicit_raise(z3.Not(z3.Select(f.has, kv)), "KeyError", node, "del key")
+            ws["has"] = z3.Store(f.has, kv, z3.BoolVal(False))
+            ws["len"] = f.length - 1
+            ws["arr"] = z3.Const(run.fresh_name("dkeys"), z3.ArraySort(z3.IntSort(), S.Val))
+            return
         run.obligation("frame", z3.BoolVal(False), node, note="del item of an object that is not fresh")
         from .symexec import PathEnd
         raise PathEnd()
@@ -3219,4 +3239,35 @@ def exec_yield(eng, node, frame):
 
 
 def exec_with(eng, s, frame):
-    raise _U("with statement")
+    """`with obj.cm(args):` for a repository @contextmanager of the shape  <setup statements>; try: yield; finally: <cleanup>.
+    The generator is inlined: setup runs in its own frame, then the body of the with statement, then the cleanup - also
+    when the body leaves by an exception, return, break or continue."""
+    from .symexec import Frame, PyRaise, ReturnSig, BreakSig, ContinueSig
+    if len(s.items) != 1 or s.items[0].optional_vars is not None or not isinstance(s.items[0].context_expr, ast.Call):
+        raise _U("with statement (only `with f(...):` without `as` is modelled)")
+    call = s.items[0].context_expr
+    callee = eng.eval(call.func, frame)
+    if not (isinstance(callee, BoundMethod) and callee.candidates and callee.candidates[0][1].kind == "contextmanager"):
+        raise _U("with statement over something that is not a repository @contextmanager method")
+    classes, fi = callee.candidates[0]
+    body = list(fi.node.body)
+    while body and isinstance(body[0], ast.Expr) and isinstance(body[0].value, ast.Constant):
+        body = body[1:]       # docstring
+    if not body or not isinstance(body[-1], ast.Try):
+        raise _U("contextmanager shape")
+    tr = body[-1]
+    setup = body[:-1]
+    if (tr.handlers or tr.orelse or len(tr.body) != 1 or not isinstance(tr.body[0], ast.Expr) or not isinstance(tr.body[0].value, ast.Yield)
+            or tr.body[0].value.value is not None):
+        raise _U("contextmanager shape (expected try: yield / finally: ...)")
+    args, kwargs = eval_args(eng, call, frame)
+    bound = eng.bind_args(fi.node, args, kwargs, frame, self_val=callee.recv, what=fi.qualname)
+    cm = Frame(bound, module=fi.module, cls=fi.cls, fi=fi)
+    cm.qualname = fi.qualname
+    eng.exec_block(setup, cm)
+    try:
+        eng.exec_block(s.body, frame)
+    except (PyRaise, ReturnSig, BreakSig, ContinueSig):
+        eng.exec_block(tr.finalbody, cm)
+        raise
+    eng.exec_block(tr.finalbody, cm)
